@@ -358,6 +358,7 @@ func checkProperty(id string, thorough, verbose bool, replayFile string, timeout
 		"load_s":                    round3(loadS),
 		"generate_s":                round3(genS),
 		"bounded":                   []string{},
+		"renamed_functions":         append([]string{}, ld.renamed...),
 	}
 	if thorough {
 		extra := thoroughExtras(ld, id, verbose)
